@@ -24,7 +24,8 @@ META = {
             "decoded field is the big-endian value of its octets at the Cisco offset; readFields_spec/readFields_encFields generic in "
             "the width list. JSON: v5_marshal_eq_render / v5_marshal_valid - the published text is the rendering of v5Tree (9 header "
             "and 20 flow members by name, addresses dotted-quad, exact decimal numbers) and derives it in the RFC 8259 grammar, "
-            "unconditionally. Tied to the real decoder/encoder by correspondence with an independent expected-packet oracle.",
+            "unconditionally. v5_nonfatal_reviewed: over regenerated facts nonfatalError is declared as the struct wrapper and never "
+            "constructed (every v5 error is fatal). Tied to the real decoder/encoder by correspondence with an independent expected-packet oracle.",
     "ref": "DESIGN.md §6 C08",
     "note": "Trusted: Lean kernel; the hand-written model Vflow.Model.V5 (tied to netflow/v5 by correspondence on the decode "
             "result and the JSON bytes); factgen (layouts, write programs); the harness and its generator.",
